@@ -14,7 +14,7 @@ Lemma stale_checks : forall drain ri,
   c_ctxdone (stale_cfg drain ri) && c_tick_checks_ctx (stale_cfg drain ri) = true /\
   c_ctxdone (stale_cfg drain ri) && c_tok_checks_ctx (stale_cfg drain ri) = true /\
   c_tok_gives_back (stale_cfg drain ri) = true /\ (1 <=? c_cap (stale_cfg drain ri)) = true /\
-  c_tok_recomputes (stale_cfg drain ri) = true.
+  c_tok_recomputes (stale_cfg drain ri) = true /\ c_reset_nb (stale_cfg drain ri) = true.
 Proof. intros. repeat split; reflexivity. Qed.
 
 Lemma stale_sw : forall drain ri e f z, select_arm (c_sw (stale_cfg drain ri)) e f z = Some (expected_arm e f z).
@@ -25,7 +25,7 @@ Lemma old_step_effect : forall drain ri o l o',
   lpc o <> PFetch -> old_label_ok l = true -> step (stale_cfg drain ri) o l = Some o' ->
   q o' = q o /\ tok o' = tok o /\ pend o' = pend o /\ now o <= now o' /\ lpc o' <> PFetch /\ pops o' = pops o.
 Proof.
-  intros drain ri o l o' Hpc Hl Hs. destruct (stale_checks drain ri) as (K1 & K2 & K3 & K4 & K5).
+  intros drain ri o l o' Hpc Hl Hs. destruct (stale_checks drain ri) as (K1 & K2 & K3 & K4 & K5 & K6).
   destruct l; cbn [old_label_ok loop_label orb] in Hl; try discriminate; cbn [step] in Hs.
   - (* TimerFire *) destruct (armed o && (dl o <=? now o)); [|discriminate]. injection Hs as <-. red_st. repeat split; auto; lia.
   - (* LoopSize *) destruct (lpc o) eqn:Epc; try discriminate. rewrite stale_sw in Hs. pose proof (delay_nonneg o0).
@@ -36,7 +36,7 @@ Proof.
   - (* SelTick *) destruct (lpc o) eqn:Epc; try discriminate. destruct (chan o); [|discriminate]. rewrite K1 in Hs. injection Hs as <-.
     unfold clear_lf. destruct (stale o); red_st; repeat split; auto; try lia; discriminate.
   - (* SelTok *) destruct (lpc o) eqn:Epc; try discriminate. destruct (tok o) eqn:Et; [|discriminate]. rewrite K2, K3 in Hs. injection Hs as <-.
-    unfold send_tok. rewrite K4. unfold take_token, clear_lf. rewrite K5. red_st. repeat split; auto; try lia; discriminate.
+    unfold send_tok. rewrite K6, K4. cbn [negb]. unfold take_token, clear_lf. rewrite K5. red_st. repeat split; auto; try lia; discriminate.
   - (* SelDone *) destruct (lpc o) eqn:Epc; try discriminate. cbn [c_ctxdone stale_cfg] in Hs. injection Hs as <-. red_st. repeat split; auto; try lia; discriminate.
   - (* LoopFetch *) destruct (lpc o); try discriminate; congruence.
   - (* LoopDispatched *) destruct (lpc o) eqn:Epc; try discriminate. injection Hs as <-. red_st. repeat split; auto; try lia; discriminate.
@@ -48,7 +48,7 @@ Lemma stale_loop_gives_token_back : forall drain ri cn s l s',
 Proof.
   intros drain ri cn s l s' Hs Heq Ht. cbn [step2] in Hs. destruct (old_label_ok l) eqn:Hl; [|discriminate].
   destruct (step (stale_cfg drain ri) (od s) l) as [o'|] eqn:E; [|discriminate]. injection Hs as <-. unfold share. red2.
-  rewrite Heq in Ht. destruct (stale_checks drain ri) as (K1 & K2 & K3 & K4 & K5).
+  rewrite Heq in Ht. destruct (stale_checks drain ri) as (K1 & K2 & K3 & K4 & K5 & K6).
   destruct l; cbn [old_label_ok loop_label orb] in Hl; try discriminate; cbn [step] in E.
   - destruct (armed (od s) && (dl (od s) <=? now (od s))); [|discriminate]. injection E as <-. red_st. exact Ht.
   - destruct (lpc (od s)); try discriminate. rewrite stale_sw in E.
@@ -57,11 +57,11 @@ Proof.
   - destruct (lpc (od s)); try discriminate. destruct (chan (od s)); [|discriminate]. rewrite K1 in E. injection E as <-.
     unfold clear_lf. destruct (stale (od s)); red_st; exact Ht.
   - destruct (lpc (od s)); try discriminate. destruct (tok (od s)); [|discriminate]. rewrite K2, K3 in E. injection E as <-.
-    unfold send_tok. rewrite K4. red_st. reflexivity.
+    unfold send_tok. rewrite K6, K4. cbn [negb]. red_st. reflexivity.
   - destruct (lpc (od s)); try discriminate. cbn [c_ctxdone stale_cfg] in E. injection E as <-. red_st. exact Ht.
   - destruct (lpc (od s)); try discriminate. destruct (failed po); [injection E as <-; unfold adv; red_st; exact Ht|].
     destruct (q (od s)); [injection E as <-; unfold adv; red_st; exact Ht|]. injection E as <-.
-    destruct resched as [p'|]; [destruct (failed pusho)|]; destruct valid; cbn [c_fetch_resets stale_cfg]; unfold fetch_resets_after_push, send_tok; rewrite ?K4;
+    destruct resched as [p'|]; [destruct (failed pusho)|]; destruct valid; cbn [c_fetch_resets stale_cfg]; unfold fetch_resets_after_push, send_tok; rewrite ?K6, ?K4; cbn [negb];
       unfold adv; red_st; auto.
   - destruct (lpc (od s)); try discriminate. injection E as <-. red_st. exact Ht.
 Qed.
@@ -107,7 +107,7 @@ Lemma inv2_step : forall drain ri o0 s l s',
   Inv2 o0 s -> step2 (code_cfg drain ri) (stale_cfg drain ri) s l = Some s' -> Inv2 o0 s'.
 Proof.
   intros drain ri o0 s l s' Hl (C & IA & IF & Hpc & Hpops) Hs. pose proof (coherent_step _ _ _ _ _ Hs) as C'.
-  destruct (code_good drain ri) as (G1 & G2 & G3 & G4 & G5 & G6 & G7 & G8 & G9 & G10).
+  destruct (code_good drain ri) as (G1 & G2 & G3 & G4 & G5 & G6 & G7 & G8 & G9 & G10 & G11).
   split; [exact C'|]. destruct l; cbn [step2] in Hs.
   - destruct (step (code_cfg drain ri) (nw s) l) as [n'|] eqn:E; [|discriminate]. injection Hs as <-. red2.
     destruct (share_private n' (od s)) as (P1 & P2 & _). rewrite P1, P2.
